@@ -283,7 +283,8 @@ impl Jsonify for Value {
       Value::Number(value) => value.jsonify(),
       Value::Null(_) => "null".to_string(),
       Value::String(s) => json_string(s),
-      _ => format!("jsonify not implemented for: {}", self),
+      // values without a JSON counterpart (dates, times, durations, ranges...) are JSON strings holding their FEEL text
+      _ => json_string(&self.to_string()),
     }
   }
 }
